@@ -57,14 +57,17 @@ def main(argv=None):
                 "-m", "islamon.worker", pid, a.tier, str(a.seed), str(k), str(nshards), out, str(tier["budget_s"])]
             log = open(os.path.join(work, f"shard-{k}.log"), "wb")
             procs.append((k, out, log, subprocess.Popen(cmd, env=child_env(spec.get("env")), cwd=ROOT,
-                                                        stdout=log, stderr=subprocess.STDOUT)))
+                                                        stdout=log, stderr=subprocess.STDOUT, start_new_session=True)))
         shard_results, dead = [], []
         deadline = time.time() + timeout
         for k, out, log, p in procs:
             try:
                 p.wait(timeout=max(1, deadline - time.time()))
             except subprocess.TimeoutExpired:
-                p.kill()
+                try:
+                    os.killpg(p.pid, 9)
+                except Exception:
+                    p.kill()
                 p.wait()
             log.close()
             rec = None
@@ -82,6 +85,11 @@ def main(argv=None):
                 shard_results.append(rec)
         return fold(pid, mod, spec, a, shard_results, dead, t0, nshards)
     finally:
+        for k, out, log, p in procs:
+            try:
+                os.killpg(p.pid, 9)
+            except Exception:
+                pass
         shutil.rmtree(work, ignore_errors=True)
 
 
